@@ -319,11 +319,157 @@ theorem inv_append {s : Store} (h : StoreInv s) {i : Nat} {e : Ext} (c : BCall)
           simp [hown, this] at hnot
       · exact hw
 
-/-! ### every operation preserves the invariant -/
+/-! ### the stores after the frames of the operations -/
 
 theorem set_self_getElem? {s : Store} {i : Nat} {e : Ext} (he : s.exts[i]? = some e) :
     (openNew s i e).1.exts[i]? = some (openNew s i e).2 := by
   simp only [openNew, List.getElem?_set_self (lt_of_getElem? he)]
+
+/-- the store after `ensureReader … defer e.Close()` (a terminal operation that got past its
+first tests) -/
+def termStore (w : World) (s : Store) (i : Nat) (e : Ext) : Store :=
+  match ensureReader w s i e with
+  | .error _ => s
+  | .ok (s1, e1) => closeExt s1 i e1
+
+/-- the store after `ensureReader` alone (non-terminal operations) -/
+def ntStore (w : World) (s : Store) (i : Nat) (e : Ext) : Store :=
+  match ensureReader w s i e with
+  | .error _ => s
+  | .ok (s1, _) => s1
+
+theorem termStore_cases (w : World) (s : Store) (i : Nat) (e : Ext) :
+    (e.opened = true ∧ termStore w s i e = closeExt s i e) ∨
+    (e.opened = false ∧ (e.hasFile = false ∨ w.openOk = false) ∧ termStore w s i e = s) ∨
+    (e.opened = false ∧ e.hasFile = true ∧ w.openOk = true ∧
+      termStore w s i e = closeExt (openNew s i e).1 i (openNew s i e).2) := by
+  unfold termStore
+  rcases ensureReader_cases w s i e with ⟨ho, hr⟩ | ⟨ho, hb, x, hr⟩ | ⟨ho, hf, hw, hr⟩
+  · left; rw [hr]; exact ⟨ho, rfl⟩
+  · right; left; rw [hr]; exact ⟨ho, hb, rfl⟩
+  · right; right; rw [hr]; exact ⟨ho, hf, hw, rfl⟩
+
+theorem ntStore_cases (w : World) (s : Store) (i : Nat) (e : Ext) :
+    (e.opened = true ∧ ntStore w s i e = s) ∨
+    (e.opened = false ∧ (e.hasFile = false ∨ w.openOk = false) ∧ ntStore w s i e = s) ∨
+    (e.opened = false ∧ e.hasFile = true ∧ w.openOk = true ∧
+      ntStore w s i e = (openNew s i e).1) := by
+  unfold ntStore
+  rcases ensureReader_cases w s i e with ⟨ho, hr⟩ | ⟨ho, hb, x, hr⟩ | ⟨ho, hf, hw, hr⟩
+  · left; rw [hr]; exact ⟨ho, rfl⟩
+  · right; left; rw [hr]; exact ⟨ho, hb, rfl⟩
+  · right; right; rw [hr]; exact ⟨ho, hf, hw, rfl⟩
+
+/-- `Close` on an extractor that has not opened anything does nothing -/
+theorem closeExt_unopened {s : Store} (h : StoreInv s) {i : Nat} {e : Ext}
+    (he : s.exts[i]? = some e) (ho : e.opened = false) : closeExt s i e = s := by
+  have := (h.unopened i e he ho).1
+  unfold closeExt
+  simp [this]
+
+theorem set_concat_false' (l : List Bool) : (l ++ [true]).set l.length false = l ++ [false] := by
+  induction l with
+  | nil => rfl
+  | cons b bs ih => simp [List.set, ih]
+
+/-- opening the file and closing it again leaves one more, closed, reader behind and
+nothing else -/
+theorem close_openNew {s : Store} (h : StoreInv s) {i : Nat} {e : Ext}
+    (he : s.exts[i]? = some e) (ho : e.opened = false) :
+    closeExt (openNew s i e).1 i (openNew s i e).2 = { s with readers := s.readers ++ [false] } := by
+  have hi := lt_of_getElem? he
+  obtain ⟨hw, hr⟩ := h.unopened i e he ho
+  have hee : ({ e with reader := none, owns := false, opened := false } : Ext) = e := by
+    cases e; simp_all
+  have hset : s.exts.set i e = s.exts := by
+    apply List.ext_getElem?
+    intro j
+    by_cases hij : i = j
+    · subst hij; rw [List.getElem?_set_self hi, he]
+    · rw [List.getElem?_set_ne hij]
+  simp only [closeExt, openNew, if_true, List.set_set, set_concat_false', hee, hset]
+
+theorem inv_deadReader {s : Store} (h : StoreInv s) :
+    StoreInv { s with readers := s.readers ++ [false] } := by
+  constructor
+  · exact h.unopened
+  · intro j ej hj hoj
+    obtain ⟨r, hr, hl⟩ := h.live j ej hj hoj
+    exact ⟨r, hr, by
+      show (s.readers ++ [false])[r]? = some true
+      rw [List.getElem?_append_left (lt_of_getElem? hl)]; exact hl⟩
+  · exact h.unique
+  · exact h.ownsFile
+  · exact h.errNoOwn
+
+theorem inv_termStore (w : World) {s : Store} (h : StoreInv s) {i : Nat} {e : Ext}
+    (he : s.exts[i]? = some e) : StoreInv (termStore w s i e) := by
+  rcases termStore_cases w s i e with ⟨_, hr⟩ | ⟨_, _, hr⟩ | ⟨ho, _, _, hr⟩
+  · rw [hr]; exact inv_closeExt h he
+  · rw [hr]; exact h
+  · rw [hr, close_openNew h he ho]; exact inv_deadReader h
+
+theorem inv_ntStore (w : World) {s : Store} (h : StoreInv s) {i : Nat} {e : Ext}
+    (he : s.exts[i]? = some e) (herr : e.err = false) : StoreInv (ntStore w s i e) := by
+  rcases ntStore_cases w s i e with ⟨_, hr⟩ | ⟨_, _, hr⟩ | ⟨ho, hf, _, hr⟩
+  · rw [hr]; exact h
+  · rw [hr]; exact h
+  · rw [hr]; exact inv_openNew h he ho hf herr
+
+/-- the path through a failing `ensurePDFReader`: for a file-based extractor it is the frame
+of a terminal operation, for any other nothing happens -/
+theorem mismatchStore_eq (w : World) {s : Store} (h : StoreInv s) {i : Nat} {e : Ext}
+    (he : s.exts[i]? = some e) :
+    mismatchStore w s i e = if e.hasFile then termStore w s i e else s := by
+  unfold mismatchStore termStore
+  rcases ensureReader_cases w s i e with ⟨ho, hr⟩ | ⟨ho, hb, x, hr⟩ | ⟨ho, hf, hw, hr⟩
+  · rw [hr]
+  · rw [hr]
+    cases hf : e.hasFile
+    · simp
+    · simp [closeExt_unopened h he ho]
+  · rw [hr]; simp [hf]
+
+theorem inv_mismatch (w : World) {s : Store} (h : StoreInv s) {i : Nat} {e : Ext}
+    (he : s.exts[i]? = some e) : StoreInv (mismatchStore w s i e) := by
+  rw [mismatchStore_eq w h he]
+  split
+  · exact inv_termStore w h he
+  · exact h
+
+/-! ### every operation preserves the invariant -/
+
+theorem terminal_fst (w : World) (k : Term) (s : Store) (i : Nat) (e : Ext)
+    (he : s.exts[i]? = some e) :
+    (terminal w k s i).1 =
+      if (k.checksErr e.format && e.err) = true then s
+      else if (k.pdfOnly && e.format != .pdf) = true then mismatchStore w s i e
+      else termStore w s i e := by
+  unfold terminal termStore
+  simp only [he]
+  split
+  · rfl
+  · split
+    · rfl
+    · cases ensureReader w s i e with
+      | error x => rfl
+      | ok p => rfl
+
+theorem nonTerminal_fst (w : World) (k : NonTerm) (s : Store) (i : Nat) (e : Ext)
+    (he : s.exts[i]? = some e) :
+    (nonTerminal w k s i).1 =
+      if e.err = true then s
+      else if (k.pdfOnly && e.format != .pdf) = true then mismatchStore w s i e
+      else ntStore w s i e := by
+  unfold nonTerminal ntStore
+  simp only [he]
+  split
+  · rfl
+  · split
+    · rfl
+    · cases ensureReader w s i e with
+      | error x => rfl
+      | ok p => rfl
 
 theorem inv_step (w : World) {s : Store} (h : StoreInv s) (op : Op) : StoreInv (step w s op).1 := by
   cases op with
@@ -333,32 +479,28 @@ theorem inv_step (w : World) {s : Store} (h : StoreInv s) (op : Op) : StoreInv (
     | none => exact h
     | some e => exact inv_append h c he
   | term i k =>
-    simp only [step, terminal]
+    simp only [step]
     cases he : s.exts[i]? with
-    | none => exact h
+    | none => simp only [terminal, he]; exact h
     | some e =>
-      simp only
-      by_cases herr : e.err = true
-      · simp only [herr, if_true]; exact h
-      · simp only [herr]
-        rcases ensureReader_cases w s i e with ⟨_, hr⟩ | ⟨_, _, x, hr⟩ | ⟨ho, hf, _, hr⟩
-        · rw [hr]; exact inv_closeExt h he
-        · rw [hr]; exact h
-        · rw [hr]
-          exact inv_closeExt (inv_openNew h he ho hf (by simpa using herr)) (set_self_getElem? he)
+      rw [terminal_fst w k s i e he]
+      split
+      · exact h
+      · split
+        · exact inv_mismatch w h he
+        · exact inv_termStore w h he
   | nonTerm i k =>
-    simp only [step, nonTerminal]
+    simp only [step]
     cases he : s.exts[i]? with
-    | none => exact h
+    | none => simp only [nonTerminal, he]; exact h
     | some e =>
-      simp only
-      by_cases herr : e.err = true
-      · simp only [herr, if_true]; exact h
-      · simp only [herr]
-        rcases ensureReader_cases w s i e with ⟨_, hr⟩ | ⟨_, _, x, hr⟩ | ⟨ho, hf, _, hr⟩
-        · rw [hr]; exact h
-        · rw [hr]; exact h
-        · rw [hr]; exact inv_openNew h he ho hf (by simpa using herr)
+      rw [nonTerminal_fst w k s i e he]
+      split
+      · exact h
+      · rename_i herr
+        split
+        · exact inv_mismatch w h he
+        · exact inv_ntStore w h he (by simpa using herr)
   | close i =>
     simp only [step, closeOp]
     cases he : s.exts[i]? with
@@ -370,39 +512,21 @@ theorem inv_exec (w : World) (ops : List Op) : ∀ {s : Store}, StoreInv s → S
   | nil => intro s h; exact h
   | cons op ops ih => intro s h; exact ih (inv_step w h op)
 
-theorem inv_openBase : StoreInv openBase := by
-  constructor
-  · intro i e he _
-    have : e = {} := by
-      cases i with
-      | zero => simp [openBase] at he; exact he.symm
-      | succ k => simp [openBase] at he
-    subst this; exact ⟨rfl, rfl⟩
-  · intro i e he ho
-    have : e = {} := by
-      cases i with
-      | zero => simp [openBase] at he; exact he.symm
-      | succ k => simp [openBase] at he
-    subst this; cases ho
-  · intro i j ei ej r hij hi hj
+theorem inv_openBaseF (f : Fmt) : StoreInv (openBaseF f) := by
+  have key : ∀ (i : Nat) (e : Ext), (openBaseF f).exts[i]? = some e → e = ({ format := f } : Ext) := by
+    intro i e he
     cases i with
-    | zero =>
-      cases j with
-      | zero => exact absurd rfl hij
-      | succ k => simp [openBase] at hj
-    | succ k => simp [openBase] at hi
-  · intro i e he ho
-    have : e = {} := by
-      cases i with
-      | zero => simp [openBase] at he; exact he.symm
-      | succ k => simp [openBase] at he
-    subst this; cases ho
-  · intro i e he herr
-    have : e = {} := by
-      cases i with
-      | zero => simp [openBase] at he; exact he.symm
-      | succ k => simp [openBase] at he
-    subst this; cases herr
+    | zero => simp [openBaseF] at he; exact he.symm
+    | succ k => simp [openBaseF] at he
+  constructor
+  · intro i e he _; rw [key i e he]; exact ⟨rfl, rfl⟩
+  · intro i e he ho; rw [key i e he] at ho; cases ho
+  · intro i j ei ej r hij hi hj hown
+    rw [key i ei hi] at hown; cases hown
+  · intro i e he ho; rw [key i e he] at ho; cases ho
+  · intro i e he herr; rw [key i e he] at herr; cases herr
+
+theorem inv_openBase : StoreInv openBase := inv_openBaseF .pdf
 
 theorem inv_readerBase : StoreInv readerBase := by
   have key : ∀ (i : Nat) (e : Ext), readerBase.exts[i]? = some e →
@@ -435,21 +559,26 @@ def termRes (w : World) (k : Term) (v : Option (Ext × Bool)) : Res :=
   match v with
   | none => .bad
   | some (e, liveNow) =>
-    if e.err then .err
-    else if e.opened then (if liveNow then termBody w k e.opts else .err)
+    if k.checksErr e.format && e.err then .err
+    else if k.pdfOnly && e.format != .pdf then .err
+    else if e.opened then (if liveNow then termBodyF w k e else .err)
     else if !e.hasFile then .err
     else if !w.openOk then .err
-    else termBody w k e.opts
+    else termBodyF w k e
 
 def nonTermRes (w : World) (k : NonTerm) (v : Option (Ext × Bool)) : Res :=
   match v with
   | none => .bad
   | some (e, liveNow) =>
     if e.err then .err
+    else if k.pdfOnly && e.format != .pdf then .err
     else if e.opened then (if liveNow then nonTermBody w k else .err)
     else if !e.hasFile then .err
     else if !w.openOk then .err
     else nonTermBody w k
+
+theorem termBodyF_openNew (w : World) (k : Term) (s : Store) (i : Nat) (e : Ext) :
+    termBodyF w k (openNew s i e).2 = termBodyF w k e := rfl
 
 theorem terminal_res (w : World) (k : Term) (s : Store) (i : Nat) :
     (terminal w k s i).2 = termRes w k (view s i) := by
@@ -458,17 +587,17 @@ theorem terminal_res (w : World) (k : Term) (s : Store) (i : Nat) :
   | none => rfl
   | some e =>
     simp only [Option.map_some]
-    cases herr : e.err with
-    | true => simp
-    | false =>
-      simp only [Bool.false_eq_true, if_false]
-      rcases ensureReader_cases w s i e with ⟨ho, hr⟩ | ⟨ho, hbad, x, hr⟩ | ⟨ho, hf, hw, hr⟩
-      · rw [hr]; simp [ho]
-      · rw [hr]
-        rcases hbad with hb | hb <;> simp [ho, hb]
-      · rw [hr]
-        simp only [readerLive_openNew]
-        simp [ho, hf, hw, openNew]
+    split
+    · rfl
+    · split
+      · rfl
+      · rcases ensureReader_cases w s i e with ⟨ho, hr⟩ | ⟨ho, hbad, x, hr⟩ | ⟨ho, hf, hw, hr⟩
+        · rw [hr]; simp [ho]
+        · rw [hr]
+          rcases hbad with hb | hb <;> simp [ho, hb]
+        · rw [hr]
+          simp only [readerLive_openNew, termBodyF_openNew]
+          simp [ho, hf, hw]
 
 theorem nonTerminal_res (w : World) (k : NonTerm) (s : Store) (i : Nat) :
     (nonTerminal w k s i).2 = nonTermRes w k (view s i) := by
@@ -477,17 +606,17 @@ theorem nonTerminal_res (w : World) (k : NonTerm) (s : Store) (i : Nat) :
   | none => rfl
   | some e =>
     simp only [Option.map_some]
-    cases herr : e.err with
-    | true => simp
-    | false =>
-      simp only [Bool.false_eq_true, if_false]
-      rcases ensureReader_cases w s i e with ⟨ho, hr⟩ | ⟨ho, hbad, x, hr⟩ | ⟨ho, hf, hw, hr⟩
-      · rw [hr]; simp [ho]
-      · rw [hr]
-        rcases hbad with hb | hb <;> simp [ho, hb]
-      · rw [hr]
-        simp only [readerLive_openNew]
-        simp [ho, hf, hw]
+    split
+    · rfl
+    · split
+      · rfl
+      · rcases ensureReader_cases w s i e with ⟨ho, hr⟩ | ⟨ho, hbad, x, hr⟩ | ⟨ho, hf, hw, hr⟩
+        · rw [hr]; simp [ho]
+        · rw [hr]
+          rcases hbad with hb | hb <;> simp [ho, hb]
+        · rw [hr]
+          simp only [readerLive_openNew]
+          simp [ho, hf, hw]
 
 /-- the result of any operation whose receiver is `i`, as a function of the view -/
 def opRes (w : World) (v : Option (Ext × Bool)) : Op → Res
@@ -525,6 +654,20 @@ theorem view_openNew_ne {s : Store} (h : StoreInv s) {i j : Nat} {e : Ext} (hij 
       have := h.bound hi hr
       simp only [List.getElem?_append_left this]
 
+theorem view_deadReader {s : Store} (h : StoreInv s) (i : Nat) :
+    view { s with readers := s.readers ++ [false] } i = view s i := by
+  unfold view
+  cases hi : s.exts[i]? with
+  | none => rfl
+  | some ei =>
+    simp only [Option.map_some, Option.some.injEq, Prod.mk.injEq, true_and]
+    unfold readerLive
+    cases hr : ei.reader with
+    | none => rfl
+    | some r =>
+      have := h.bound hi hr
+      simp only [List.getElem?_append_left this]
+
 theorem view_closeExt_ne {s : Store} (h : StoreInv s) {i j : Nat} {e : Ext}
     (he : s.exts[j]? = some e) (hij : j ≠ i) :
     view (closeExt s j e) i = view s i := by
@@ -550,47 +693,96 @@ theorem view_closeExt_ne {s : Store} (h : StoreInv s) {i j : Nat} {e : Ext}
           simp only [List.getElem?_set_ne hne]
   · simp only [hown]; rfl
 
+theorem view_termStore_ne (w : World) {s : Store} (h : StoreInv s) {i j : Nat} {e : Ext}
+    (he : s.exts[j]? = some e) (hij : j ≠ i) : view (termStore w s j e) i = view s i := by
+  rcases termStore_cases w s j e with ⟨_, hr⟩ | ⟨_, _, hr⟩ | ⟨ho, _, _, hr⟩
+  · rw [hr]; exact view_closeExt_ne h he hij
+  · rw [hr]
+  · rw [hr, close_openNew h he ho]; exact view_deadReader h i
+
+theorem view_ntStore_ne (w : World) {s : Store} (h : StoreInv s) {i j : Nat} {e : Ext}
+    (hij : j ≠ i) : view (ntStore w s j e) i = view s i := by
+  rcases ntStore_cases w s j e with ⟨_, hr⟩ | ⟨_, _, hr⟩ | ⟨_, _, _, hr⟩
+  · rw [hr]
+  · rw [hr]
+  · rw [hr]; exact view_openNew_ne h hij
+
+theorem view_mismatch_ne (w : World) {s : Store} (h : StoreInv s) {i j : Nat} {e : Ext}
+    (he : s.exts[j]? = some e) (hij : j ≠ i) : view (mismatchStore w s j e) i = view s i := by
+  rw [mismatchStore_eq w h he]
+  split
+  · exact view_termStore_ne w h he hij
+  · rfl
+
 theorem view_append {s : Store} {i : Nat} (d : Ext) (hi : i < s.exts.length) :
     view { s with exts := s.exts ++ [d] } i = view s i := by
   unfold view
   simp only [List.getElem?_append_left hi]
   rfl
 
-theorem length_step_le (w : World) (s : Store) (op : Op) :
+theorem termStore_length (w : World) (s : Store) (i : Nat) (e : Ext) :
+    (termStore w s i e).exts.length = s.exts.length := by
+  rcases termStore_cases w s i e with ⟨_, hr⟩ | ⟨_, _, hr⟩ | ⟨_, _, _, hr⟩
+  · rw [hr, closeExt_length]
+  · rw [hr]
+  · rw [hr, closeExt_length, openNew_length]
+
+theorem ntStore_length (w : World) (s : Store) (i : Nat) (e : Ext) :
+    (ntStore w s i e).exts.length = s.exts.length := by
+  rcases ntStore_cases w s i e with ⟨_, hr⟩ | ⟨_, _, hr⟩ | ⟨_, _, _, hr⟩
+  · rw [hr]
+  · rw [hr]
+  · rw [hr, openNew_length]
+
+theorem mismatchStore_length (w : World) (s : Store) (i : Nat) (e : Ext) :
+    (mismatchStore w s i e).exts.length = s.exts.length := by
+  unfold mismatchStore
+  rcases ensureReader_cases w s i e with ⟨_, hr⟩ | ⟨_, _, x, hr⟩ | ⟨_, hf, _, hr⟩
+  · simp only [hr]; split
+    · exact closeExt_length s i e
+    · rfl
+  · simp only [hr]; split
+    · exact closeExt_length s i e
+    · rfl
+  · simp only [hr, hf, if_true]
+    rw [closeExt_length, openNew_length]
+
+theorem length_step (w : World) (s : Store) (op : Op) :
     s.exts.length ≤ (step w s op).1.exts.length := by
   cases op with
   | derive i c =>
     simp only [step, deriveOp]
     split <;> simp
   | term i k =>
-    simp only [step, terminal]
-    split
-    · simp
-    · rename_i e he
-      by_cases herr : e.err = true
-      · simp [herr]
-      · simp only [herr]
-        rcases ensureReader_cases w s i e with ⟨_, hr⟩ | ⟨_, _, x, hr⟩ | ⟨_, _, _, hr⟩
-        · rw [hr]; simp [closeExt_length]
-        · rw [hr]; simp
-        · rw [hr]; simp [closeExt_length, openNew_length]
+    simp only [step]
+    cases he : s.exts[i]? with
+    | none => simp [terminal, he]
+    | some e =>
+      rw [terminal_fst w k s i e he]
+      split
+      · exact Nat.le_refl _
+      · split
+        · rw [mismatchStore_length]; exact Nat.le_refl _
+        · rw [termStore_length]; exact Nat.le_refl _
   | nonTerm i k =>
-    simp only [step, nonTerminal]
-    split
-    · simp
-    · rename_i e he
-      by_cases herr : e.err = true
-      · simp [herr]
-      · simp only [herr]
-        rcases ensureReader_cases w s i e with ⟨_, hr⟩ | ⟨_, _, x, hr⟩ | ⟨_, _, _, hr⟩
-        · rw [hr]; simp
-        · rw [hr]; simp
-        · rw [hr]; simp [openNew_length]
+    simp only [step]
+    cases he : s.exts[i]? with
+    | none => simp [nonTerminal, he]
+    | some e =>
+      rw [nonTerminal_fst w k s i e he]
+      split
+      · exact Nat.le_refl _
+      · split
+        · rw [mismatchStore_length]; exact Nat.le_refl _
+        · rw [ntStore_length]; exact Nat.le_refl _
   | close i =>
     simp only [step, closeOp]
     split
     · simp
     · simp [closeExt_length]
+
+theorem length_step_le (w : World) (s : Store) (op : Op) :
+    s.exts.length ≤ (step w s op).1.exts.length := length_step w s op
 
 /-- an operation that does not mutate extractor `i` (its receiver is another
 extractor, or it is a configuration method) leaves the view of `i` unchanged -/
@@ -605,37 +797,28 @@ theorem view_step (w : World) {s : Store} (h : StoreInv s) (i : Nat) (hi : i < s
     | some e => exact view_append _ hi
   | term j k =>
     have hji : j ≠ i := hop rfl
-    simp only [step, terminal]
+    simp only [step]
     cases he : s.exts[j]? with
-    | none => rfl
+    | none => simp only [terminal, he]
     | some e =>
-      simp only
-      cases herr : e.err with
-      | true => rfl
-      | false =>
-        simp only [Bool.false_eq_true, if_false]
-        rcases ensureReader_cases w s j e with ⟨_, hr⟩ | ⟨_, _, x, hr⟩ | ⟨ho, hf, _, hr⟩
-        · rw [hr]; exact view_closeExt_ne h he hji
-        · rw [hr]
-        · rw [hr]
-          show view (closeExt (openNew s j e).1 j (openNew s j e).2) i = view s i
-          rw [view_closeExt_ne (inv_openNew h he ho hf herr) (set_self_getElem? he) hji]
-          exact view_openNew_ne h hji
+      rw [terminal_fst w k s j e he]
+      split
+      · rfl
+      · split
+        · exact view_mismatch_ne w h he hji
+        · exact view_termStore_ne w h he hji
   | nonTerm j k =>
     have hji : j ≠ i := hop rfl
-    simp only [step, nonTerminal]
+    simp only [step]
     cases he : s.exts[j]? with
-    | none => rfl
+    | none => simp only [nonTerminal, he]
     | some e =>
-      simp only
-      cases herr : e.err with
-      | true => rfl
-      | false =>
-        simp only [Bool.false_eq_true, if_false]
-        rcases ensureReader_cases w s j e with ⟨_, hr⟩ | ⟨_, _, x, hr⟩ | ⟨ho, hf, _, hr⟩
-        · rw [hr]
-        · rw [hr]
-        · rw [hr]; exact view_openNew_ne h hji
+      rw [nonTerminal_fst w k s j e he]
+      split
+      · rfl
+      · split
+        · exact view_mismatch_ne w h he hji
+        · exact view_ntStore_ne w h hji
   | close j =>
     have hji : j ≠ i := hop rfl
     simp only [step, closeOp]
@@ -694,5 +877,34 @@ theorem closeExt_releases {s : Store} (h : StoreInv s) {i : Nat} {e : Ext}
     refine ⟨_, List.getElem?_set_self hi, rfl, ?_⟩
     simp only [Store.fdCount]
     exact count_set_false s.readers r hl
+
+/-- the frame of a terminal operation releases what the extractor holds -/
+theorem termStore_releases (w : World) {s : Store} (h : StoreInv s) {i : Nat} {e : Ext}
+    (he : s.exts[i]? = some e) :
+    ∃ e', (termStore w s i e).exts[i]? = some e' ∧ e'.owns = false ∧
+      (termStore w s i e).fdCount + (if e.owns then 1 else 0) = s.fdCount := by
+  rcases termStore_cases w s i e with ⟨_, hr⟩ | ⟨ho, _, hr⟩ | ⟨ho, _, _, hr⟩
+  · rw [hr]; exact closeExt_releases h he
+  · rw [hr]
+    have := (h.unopened i e he ho).1
+    exact ⟨e, he, this, by simp [this]⟩
+  · rw [hr, close_openNew h he ho]
+    have := (h.unopened i e he ho).1
+    refine ⟨e, he, this, ?_⟩
+    simp [this, Store.fdCount, List.count_append]
+
+theorem mismatch_releases (w : World) {s : Store} (h : StoreInv s) {i : Nat} {e : Ext}
+    (he : s.exts[i]? = some e) :
+    ∃ e', (mismatchStore w s i e).exts[i]? = some e' ∧ e'.owns = false ∧
+      (mismatchStore w s i e).fdCount + (if e.owns then 1 else 0) = s.fdCount := by
+  rw [mismatchStore_eq w h he]
+  cases hf : e.hasFile with
+  | true => simpa using termStore_releases w h he
+  | false =>
+    have hown : e.owns = false := by
+      cases ho : e.owns with
+      | false => rfl
+      | true => have := h.ownsFile i e he ho; rw [hf] at this; cases this
+    exact ⟨e, by simpa using he, hown, by simp [hown]⟩
 
 end Tabula.Builder
